@@ -616,14 +616,34 @@ def run(chk, prog):
               "bunch charge times revolution frequency is the beam current (\"Coulomb\" vs \"Ampere\": %s)" % loc7.get("Qb"), "units:charge-vs-current")
     hcs = I2.scan(hc, hooks=[G2.make_hook()])
     hv = {a_.base: a_.value for a_ in hcs.accesses if a_.kind == "store" and a_.idx is None and a_.value is not None}
-    sec = [v_ for k_, v_ in hv.items() if "physcons_c" in str(v_)]
+    def expand_locals(v_):
+        for _ in range(6):
+            m2 = {t_: hv[str(t_)] for t_ in v_.free_symbols if str(t_) in hv and hv[str(t_)] is not None}
+            if not m2:
+                break
+            v_ = v_.subs(m2)
+        return sp.simplify(v_)
+    # the value written as "Second" of the position axis: the local whose address the attribute writer receives
+    sec_names = []
+    for x in A.walk(hc["body"]):
+        if x.get("k") == "CXXMemberCallExpr" and (x.get("callee") or "").endswith("::write") and x.get("args"):
+            o_ = A.strip(A.call_object(x)) if A.call_object(x) is not None else None
+            if o_ is not None and o_.get("k") == "CXXMemberCallExpr" and (o_.get("callee") or "").endswith("::createAttribute") and o_.get("args"):
+                unit_ = [y.get("value") for y in A.walk(o_["args"][0]) if y.get("k") == "StringLiteral"]
+                holder_ = A.show(A.call_object(o_)) if A.call_object(o_) is not None else ""
+                if unit_ == ["Second"] and "_positionAxis" in holder_:
+                    d_ = [y for y in A.walk(x["args"][-1]) if y.get("k") == "DeclRefExpr" and y.get("dkind") == "Var"]
+                    sec_names += [y["name"] for y in d_]
     okm = False
-    if len(sec) == 1:
-        m_ = sp.simplify(sec[0] * sp.Symbol("physcons_c", real=True))
-        for t_ in [m_] + [hv.get(str(m_))]:
-            if t_ is not None and str(t_) == "AX0_scale_Meter":
-                okm = True
-    chk.check(okm, "R7", hc.where, "\"Second\" of the position axis times c is its \"Meter\" scale (%s)" % (sec[0] if sec else None), "units:seconds-vs-metres")
+    secv = None
+    if len(sec_names) == 1 and hv.get(sec_names[0]) is not None:
+        secv = expand_locals(hv[sec_names[0]])
+        okm = sp.simplify(secv * sp.Symbol("physcons_c", real=True) - sp.Symbol("AX0_scale_Meter", positive=True)) == 0
+    elif not sec_names:
+        # the attribute is written through a helper (lambda): fall back to the only local whose value is <Meter scale>/c
+        cands = [expand_locals(v_) for v_ in hv.values() if v_ is not None]
+        okm = any(sp.simplify(v_ * sp.Symbol("physcons_c", real=True) - sp.Symbol("AX0_scale_Meter", positive=True)) == 0 for v_ in cands)
+    chk.check(okm, "R7", hc.where, "\"Second\" of the position axis times c is its \"Meter\" scale (%s)" % secv, "units:seconds-vs-metres")
     trn = [v_ for v_ in hv.values() if {str(t_) for t_ in v_.free_symbols} == {"f_rev", "t_sync"}]
     chk.check(len(trn) == 1 and same(trn[0], sp.Symbol("f_rev", real=True) * sp.Symbol("t_sync", real=True)), "R7", hc.where,
               "\"Turn\" of the time axis = \"Second\" * f_rev (%s)" % (trn[0] if trn else None), "units:turns-vs-seconds")
